@@ -64,6 +64,10 @@ func strictWalk(v reflect.Value, depth int) string {
 	case reflect.Int, reflect.Int8, reflect.Int16, reflect.Int32, reflect.Int64, reflect.Uint, reflect.Uint8, reflect.Uint16, reflect.Uint32, reflect.Uint64:
 		return ""
 	case reflect.Slice, reflect.Array:
+		if v.Kind() == reflect.Slice && v.IsNil() {
+			// an array to the evaluator, null to json.Marshal: not one JSON value
+			return "nil slice of type " + t.String() + " (an array that is encoded as null)"
+		}
 		for i := 0; i < v.Len(); i++ {
 			if m := strictWalk(v.Index(i), depth+1); m != "" {
 				return m
@@ -73,6 +77,9 @@ func strictWalk(v reflect.Value, depth int) string {
 	case reflect.Map:
 		if t.Key().Kind() != reflect.String {
 			return "map with key type " + t.Key().String()
+		}
+		if v.IsNil() {
+			return "nil map of type " + t.String() + " (an object that is encoded as null)"
 		}
 		it := v.MapRange()
 		for it.Next() {
